@@ -40,7 +40,11 @@ func semverish(level int, prefixes G, arMin, arMax int) G {
 	)
 	if level > 0 {
 		pre3 := Seq(Lit("-"), Lit("0", "1", "a", "-"), Rep(Seq(Lit("."), Lit("0", "1", "a", "-")), 0, 3))
-		out = Alt(out, Seq(prefixes, Lit("1.0.0"), pre3), Seq(prefixes, core, pre1))
+		coreT := core
+		if arMax > 3 {
+			coreT = Alt(dotted(Lit("0", "1", "10"), arMin, 3), dotted(Lit("0", "1"), 4, 4))
+		}
+		out = Alt(out, Seq(prefixes, Lit("1.0.0"), pre3), Seq(prefixes, coreT, pre1))
 	}
 	return out
 }
@@ -70,7 +74,8 @@ func Versions(name string, level int) G {
 			Seq(small, Opt(Lit("~abc", "~0f", "~1")), rev),
 			Seq(small, sfx2, Lit("~abc")),
 			Lit("9.0bc", "9.5", "10.0", "1.0-1", "1.0_", "1.0__p", "1..2", "1.0-r", "1.0-rx", "v1.0", "1.0A", "1.0_P1", "abc1", "1.0+b", "1:1.0", "9223372036854775808", "1.9223372036854775808", "1.0_p9223372036854775808", "1.0-r9223372036854775808"),
-			AllStrings(Chars("01a_pr-.~"), pick(level, 3, 4)),
+			AllStrings(Chars("01a_pr-.~"), 3),
+			pick2(level, Lit(), AllStrings(Chars("01a_p-."), 4)),
 		)
 	case "alpm":
 		core := dotted(Lit("0", "1", "2", "10", "01"), 1, pick(level, 2, 3))
@@ -78,12 +83,14 @@ func Versions(name string, level int) G {
 		rel := Opt(Lit("-1", "-2", "-10", "-01"))
 		ep := Opt(Lit("0:", "1:", "2:"))
 		g = Alt(
-			Seq(pick2(level, Lit(""), ep), core, tail, pick2(level, Opt(Lit("-1")), rel)),
+			Seq(core, tail, pick2(level, Opt(Lit("-1")), Opt(Lit("-1", "-2", "-10")))),
+			Seq(pick2(level, Lit(), Lit("1:", "2:")), dotted(Lit("0", "1", "10"), 1, 2), tail),
 			Seq(ep, Lit("1.0", "1.1"), Opt(Lit("a", "rc1")), rel),
 			Seq(Lit("1.0", "1"), Lit("a", "b", ".a", "..", "._", "+", "_a", "rc2", "beta"), Lit("", "1", ".1", "a"), pick2(level, Opt(Lit("-1")), rel)),
 			Seq(Lit("18446744073709551616", "000000000000000000002", "3", "18446744073709551615", "1.18446744073709551616", "1.000000000000000000002", "1.3"), rel),
 			Lit("1.0-", "1:-1", "-1", "1.0--1", "1.0-1-1", "1:2:3", "a", "A1", "1.0é"),
-			AllStrings(Chars("01ab._+-:"), pick(level, 3, 4)),
+			AllStrings(Chars("01ab._+-:"), 3),
+			pick2(level, Lit(), AllStrings(Chars("01a._-"), 4)),
 		)
 	case "apache":
 		core := dotted(Lit("0", "1", "2", "10", "01"), 3, 3)
@@ -210,14 +217,17 @@ func Versions(name string, level int) G {
 			AllStrings(Chars("01.-vrc"), pick(level, 5, 6)),
 		)
 	case "maven":
-		core := dotted(Lit("0", "1", "2", "10"), 1, pick(level, 3, 4))
+		core := dotted(Lit("0", "1", "2", "10"), 1, 3)
+		if level > 0 {
+			core = Alt(core, dotted(Lit("0", "1", "10"), 4, 4))
+		}
 		q := Cases("alpha", "beta", "milestone", "rc", "cr", "snapshot", "ga", "final", "release", "sp", "foo", "zeta")
 		if level == 0 {
 			q = Alt(Lit("alpha", "beta", "milestone", "rc", "cr", "snapshot", "ga", "final", "release", "sp", "foo", "zeta"), Lit("ALPHA", "Beta", "RC", "SNAPSHOT", "Final", "SP", "FOO"))
 		}
 		alias := Lit("a", "b", "m", "A")
 		num := Lit("1", "2", "10")
-		small := dotted(Lit("1", "2", "0"), 1, 2)
+		small := Lit("1", "1.0", "1.1", "2.0", "0.1", "1.0.0")
 		if level == 0 {
 			small = Lit("1", "1.0", "1.1", "2.0")
 		}
@@ -229,7 +239,8 @@ func Versions(name string, level int) G {
 			Seq(small, Lit("-", "."), alias),
 			Seq(small, Lit("-"), Lit("1", "2", "10", "0", "5")),
 			Lit("1-foo", "1-sp", "1-5", "1.0.1", "1.0-1", "1-1", "1.1", "1.0.0.0.0", "1-", "1.", "1..1", "1--1", ".1", "-1", "alpha", "sp", "ga", "a", "b", "m", "foo", "rc1", "1rc", "1rc1", "1.0-rc-sp-1", "1.0-ga-1", "1.0-alpha-beta", "1.0-1-2", "1_0", "1.0é", "2147483648", "9223372036854775808", "1.9223372036854775808", "01", "1.01", "1.0-alpha01", "1.0.0-FINAL", "1.0-xyz", "1.0.xyz", "1.0xyz", "1.0-SNAPSHOT", "1.0-snapshot-1"),
-			AllStrings(Chars("01asp.-"), pick(level, 4, 5)),
+			AllStrings(Chars("01asp.-"), 4),
+			pick2(level, Lit(), AllStrings(Chars("01s.-"), 5)),
 		)
 	case "pypi":
 		ep := Opt(Lit("0!", "1!"))
@@ -262,11 +273,13 @@ func Versions(name string, level int) G {
 		g = Alt(
 			Seq(Lit("0", "1", "2", "10", "a"), Rep(piece, 0, 2)),
 			Seq(Opt(Lit("0:", "1:", "2:")), Lit("1", "1.0", "2"), Rep(piece, 0, pick(level, 0, 1)), Opt(Lit("-1", "-0", "-2", "-a", "-1.el7", "-01"))),
-			Seq(Lit("1"), Rep(pick2(level, Lit("0", "1", "a", ".", "~", "^", "-"), piece), pick(level, 3, 3), pick(level, 3, 3))),
+			Seq(Lit("1"), Rep(Lit("0", "1", "a", ".", "~", "^", "-"), 3, 3)),
+			pick2(level, Lit(), Seq(Lit("1", "a"), Rep(Lit("0", "1", "10", "a", "A", "_", "+", "~", "^"), 3, 3))),
 			Seq(Lit("1.0", "1"), Lit("~rc1", "~", "~~", "^", "^git1", "^1", "~rc1^git1", "^git1~pre", "a", "+", ".", "_", "a1", ".1", ".a", "rc1", "^20160101", "^20160101^git1"), Opt(Lit("-1", "-0"))),
 			Lit("18446744073709551616", "000000000000000000002", "3", "18446744073709551615", "1.18446744073709551616", "1.000000000000000000002", "1.3", "1-18446744073709551616", "1-000000000000000000002", "1-3",
 				"1.0-", "1:", ":1", "1:a", "1.0é", "-1", "1--1", "1.0-1-", "01:1", "1:1:1", "9223372036854775808:1", "2.0", "2_0", "2.0.1a", "2.0.1", "5.5p1", "5.5p10", "10xyz", "10.1xyz", "xyz10", "xyz10.1", "xyz.4", "8", "6.0.rc1", "6.0", "10b2", "10a1", "1.0aa", "10.0001", "10.1", "10.0039", "4.999.9", "5.0", "a+", "a_", "+a", "_a", "+", "_"),
-			AllStrings(Chars("019az._~^-:"), pick(level, 3, 4)),
+			AllStrings(Chars("019az._~^-:"), 3),
+			pick2(level, Lit(), AllStrings(Chars("01a.~^-"), 4)),
 		)
 	}
 	_ = n
